@@ -73,10 +73,10 @@ UNIVERSE = {
     + _calls("min", [[0.5], [1.0], [0.0], [0.54], [float("inf")], [float("nan")], [1], [None], ["x"]])
     + _calls("max", [[0.5], [1.0], [0.0], [0.46], [float("-inf")], [float("nan")], [0], [None], [NIL]])
     + _calls("precision", [[1], [2], [15], [0], [16], [-1], [True], [1.0], ["2"], [None], [2 ** 63]]),
-    "str": _calls("__call__", [["ab"], [""], ["a"], ["abc"], ["{}"], ["{0}%s"], [1], [b"ab"], [None], [E], [["a"]]])
+    "str": _calls("__call__", [["ab"], [""], ["a"], ["abc"], ["{}"], ["{0}%s"], ["\u0661\u0662"], ["cafe\u0301"], ["\u212b"], [1], [b"ab"], [None], [E], [["a"]]])
     + _calls("len", LEN1 + LEN2)
-    + _calls("alphabet", [["ab"], ["a"], [""], ["abc "], [1], [None], [["a", "b"]], [b"ab"]])
-    + _calls("contains", [["a"], ["ab"], ["c"], [""], [1], [None], [b"a"], [E]])
+    + _calls("alphabet", [["ab"], ["a"], [""], ["abc "], ["0123456789"], ["caf\u00e9"], ["\u00c5"], [1], [None], [["a", "b"]], [b"ab"]])
+    + _calls("contains", [["a"], ["ab"], ["c"], [""], ["\u00e9"], ["1"], [1], [None], [b"a"], [E]])
     + _calls("regex", [["a"], ["^ab$"], ["c+"], [""], ["("], ["[a"], [1], [None], [b"a"], [E],
                        [Zoo("re_compiled_icase")], ["x{2}"], ["a{99999999999999999999}"], ["(" * 500 + "a" + ")" * 500]]),
     "list": _calls("__call__", [[[]], [[SP_INT1]], [[SP_INT1, SP_STR]], [[SP_INT, E]], [[E, SP_INT]],
